@@ -40,6 +40,10 @@ def x_obligations(tier):
     for i in (32, 33):
         o.append(Obl(f"C05-history[after call#{i}]", "xhair.obl.c13", "pair", env={"VF_IDX": str(i), "VF_FIRST": "local"}, timeout=T, family="C05-history",
                      bound=f"history (call #{i}: path() of a same-string Sid of another type, call j) for every j of the call alphabet of C13, caches on"))
+    for base, key in [("hamlet/s/sq010/sh0010/fx/v001/p/smoke/vdb", "node"), ("hamlet/a/char/ophelia/model/v001/w/ma", "asset")]:
+        for cfg in ("local", "server"):
+            o.append(Obl(f"C05-rt-pool[shipped,{cfg},{key}]", M, "roundtrip_pool", env={"VF_CONF": "shipped", "VF_BASE": base, "VF_KEY": key, "VF_CONFIG": cfg}, timeout=T, family="C05-shipped",
+                         bound=f"shipped configuration {cfg}: fields of {base} with {key} from a 10-value pool (solver-chosen index)"))
     o.append(Obl("C05-reach", M, "reach", env={"VF_N": "1", "VF_PRE": "h/a/", "VF_SUF": "/v1/m"}, timeout=150, expect="refute", family="C05-twin"))
     return o
 
